@@ -210,7 +210,7 @@ func checkC07(raw json.RawMessage) iso.Result {
 			}
 			want = w
 		}
-		if want.Unspec {
+		if want.Unspec && !(want.T == ref.TStr && want.NonEmpty) {
 			continue
 		}
 		v, err := readVar(r.ip, c.onObj(name))
@@ -221,6 +221,14 @@ func checkC07(raw json.RawMessage) iso.Result {
 		g, err := toRef(v)
 		if err != nil {
 			col.FailKey(c07Key(c, env, "value"), "%s: %v\n--- program ---\n%s", name, err, c.Src)
+			continue
+		}
+		if want.Unspec {
+			// the text is not determined, but it is a set, non-empty string (a set non-empty operand was concatenated)
+			col.Label("unspecified-but-non-empty")
+			if g.T != ref.TStr || g.NotSet || g.S == "" {
+				col.FailKey(c07Key(c, env, "value"), "final value of %s: the reference leaves the text open but requires a set, non-empty string; falco %s\n--- program ---\n%s", c.onObj(name), g, c.Src)
+			}
 			continue
 		}
 		if !sameVal(want, g) {
